@@ -131,6 +131,22 @@ def rule_publish_confirm(fx, col):
                         pay_on_mismatch = True
         col.add('PUBLISH-CONFIRM', '%s|pay on mismatch' % fn, pay_on_mismatch, 'on ptr != confirm the debt on ptr is paid back (pay(ptr))')
     col.floor('PUBLISH-CONFIRM', 'fast-path bodies', n, 1)
+    # universally: a protection that *borrows* (debt = Some) is built nowhere else. A body that publishes a debt but never reads
+    # the cell (a `Clone for Guard` "confirmed" against the first guard's debt slot) has nothing to confirm against: an unpaid
+    # debt only says the writer has not reached that slot yet, not that the pointer is still stored.
+    m = 0
+    for b in fx.lib.bodies:
+        if b.fname == 'arc_swap::strategy::hybrid::HybridProtection::new':
+            continue
+        for (nbb, pop, st, dop) in _prot_constructions(b):
+            if st == 'None':
+                continue
+            m += 1
+            pubs = [(bb, t, cb) for bb, t, cb in cx.local_calls(b) if (cx.publishes_fast_debt(cb.key) or cx.publishes_intent(cb.key)) and not b.is_cleanup(bb)]
+            cell = [s for s in cx.summ.sites_by_body.get(b.key, ()) if s.cls == 'cell' and s.op == 'load']
+            col.add('PUBLISH-CONFIRM', '%s|borrowing protection only where the cell is re-read' % b.fname, bool(pubs) and bool(cell),
+                    'a protection with debt = %s is built here; the body publishes a debt: %s, reads the cell: %s' % (st, bool(pubs), bool(cell)), b.loc(nbb))
+    col.floor('PUBLISH-CONFIRM', 'borrowing constructions', m, 1)
 
 
 def _try_through(t):
@@ -780,6 +796,39 @@ def _pays_own_debt(fx):
             ok = ok and not any(b.term(x)['k'] == 'return' for x in skip)
         out[b.key] = (ok, b)
     return out
+
+
+def rule_ptr_exclusive(fx, col):
+    """The pointer inside a protection is a *borrowed bit-copy* of the stored one while the debt is outstanding. Handing out
+    `&mut` to it (a `DerefMut for Guard`) lets safe code drop or replace a reference the guard never owned. A mutable borrow
+    of HybridProtection.ptr is admitted only after `self.debt.take()` on every path to it (the protection owns its count from
+    there on: Drop's final release, or an upgrade-then-borrow)."""
+    n = 0
+    for b in fx.lib.bodies:
+        takes = []
+        for bb, t in b.calls(include_cleanup=False):
+            if U.callee_name(t) == 'take' and 'option::Option' in t['callee'].get('path', ''):
+                r, f = b.ref_path(t['args'][0])
+                ff = [x for x in f if x['k'] == 'field']
+                if ff and ff[-1]['adt'] == PROT and ff[-1]['name'] == 'debt':
+                    takes.append(bb)
+        for bb in range(b.n):
+            if b.is_cleanup(bb):
+                continue
+            for i, st in enumerate(b.stmts(bb)):
+                if st['k'] != 'assign' or st['rv']['k'] not in ('ref', 'rawptr'):
+                    continue
+                pl = st['rv']['place']
+                if not any(e['k'] == 'field' and e.get('adt') == PROT and e.get('name') == 'ptr' for e in pl['proj']):
+                    continue
+                mut = st['rv'].get('mut') is True or st['rv'].get('kind') == 'Mut'
+                n += 1
+                if not mut:
+                    continue
+                ok = any(b.dominates(tb, bb) and tb != bb for tb in takes)
+                col.add('PTR-EXCLUSIVE', '%s|&mut ptr only once the debt is taken' % b.fname, ok,
+                        'mutable borrow of the protected pointer; self.debt.take() dominates it: %s' % ok, b.loc(bb, i))
+    col.floor('PTR-EXCLUSIVE', 'borrows of HybridProtection.ptr', n, 4)
 
 
 def rule_slot_closed(fx, col):
